@@ -1,9 +1,9 @@
 #!/bin/bash
 # tools/mk_audit.sh <ID>: git worktree of /verif on branch audit-<id> with the built Lean project copied in
 set -eu
-ID=$1; id=$(echo $ID | tr A-Z a-z); wt=/tmp/a_$id
+ID=$1; id=$(echo $ID | tr A-Z a-z); wt=/tmp/a_${id}${2:-}
 git -C /verif worktree remove --force $wt 2>/dev/null || true
-git -C /verif branch -D audit-$id 2>/dev/null || true
-git -C /verif worktree add -q -b audit-$id $wt HEAD
+git -C /verif branch -D audit-${id}${2:-} 2>/dev/null || true
+git -C /verif worktree add -q -b audit-${id}${2:-} $wt HEAD
 cp -r /verif/lean/.lake $wt/lean/.lake
 echo $wt
